@@ -129,9 +129,15 @@ func VerifC07_Messages() {
 	runs := [3]string{"r1", "r2", "r3"}
 	clientDone := false
 	for i := 0; i < k && !clientDone; i++ {
-		kind := nondetChoice(verifNm("kind", i), 9)
+		kind := nondetChoice(verifNm("kind", i), 12)
 		run := runs[i]
 		switch kind {
+		case 9: // a valid signal for the first run (which may or may not exist)
+			_ = c.enc.Encode(RuntimeMessage{MessageTypeSignal, runs[0], SignalMessage{SignalID: "sig", Data: map[string]any{}}})
+		case 10: // unknown signal id for the first run
+			_ = c.enc.Encode(RuntimeMessage{MessageTypeSignal, runs[0], SignalMessage{SignalID: "nosuchsignal", Data: map[string]any{}}})
+		case 11: // wrongly typed signal data for the first run
+			_ = c.enc.Encode(RuntimeMessage{MessageTypeSignal, runs[0], SignalMessage{SignalID: "sig", Data: []any{int64(1)}}})
 		case 0: // valid work-start
 			_ = c.enc.Encode(RuntimeMessage{MessageTypeWorkStart, run, WorkStartMessage{StepID: "inc", Config: map[string]any{"n": nondetInt64(verifNm("n", i))}}})
 			expected[run]++
@@ -224,3 +230,30 @@ func VerifC07_EndOfInputWhileRunning() {
 	verifObserve("terminals", c.terminals["r1"])
 	verifReach("C07/eoi/end")
 }
+
+// the end of input follows the work-start immediately (no waiting for the answer): the accepted, succeeding runs are
+// still answered exactly once before RunATPServer returns, under every bounded schedule
+func VerifC07_EndRightAfterStart() {
+	c := verifStartRawClient(verifBehavingPlugin(behaveOK, nil))
+	verifReach("C07/endafterstart/started")
+	two := nondetBool("twoRuns")
+	_ = c.enc.Encode(RuntimeMessage{MessageTypeWorkStart, "r1", WorkStartMessage{StepID: "inc", Config: map[string]any{"n": nondetInt64("n1")}}})
+	if two {
+		_ = c.enc.Encode(RuntimeMessage{MessageTypeWorkStart, "r2", WorkStartMessage{StepID: "inc", Config: map[string]any{"n": nondetInt64("n2")}}})
+	}
+	if nondetBool("clientDone") {
+		_ = c.enc.Encode(RuntimeMessage{MessageTypeClientDone, "", clientDoneMessage{}})
+	} else {
+		_ = c.toSrvW.Close()
+	}
+	c.srvDone.Wait()
+	c.readDone.Wait()
+	verifAssert("C07/endafterstart/exactly-one-terminal-r1", c.terminals["r1"] == 1)
+	if two {
+		verifAssert("C07/endafterstart/exactly-one-terminal-r2", c.terminals["r2"] == 1)
+	}
+	verifObserve("errors", len(c.srvErrs))
+	verifReach("C07/endafterstart/end")
+}
+
+func init() { verifRegister("VerifC07_EndRightAfterStart", VerifC07_EndRightAfterStart) }
